@@ -287,6 +287,8 @@ type c01node struct {
 	// other duty types
 	awaitProp func(ctx context.Context, slot uint64) (*eth2api.VersionedProposal, error)
 	propCand  *eth2api.VersionedProposal
+	awaitAgg  func(ctx context.Context, slot uint64, attestationDataRoot eth2p0.Root, committeeIndex eth2p0.CommitteeIndex) (*eth2spec.VersionedAttestation, error)
+	aggCand   *eth2spec.VersionedAttestation
 	retryer   *retry.Retryer[core.Duty]
 }
 
@@ -384,7 +386,8 @@ func (v c01vapi) RegisterPubKeyByAttestation(fn func(ctx context.Context, slot, 
 }
 func (c01vapi) RegisterGetDutyDefinition(func(context.Context, core.Duty) (core.DutyDefinitionSet, error)) {
 }
-func (c01vapi) RegisterAwaitAggAttestation(func(ctx context.Context, slot uint64, attestationDataRoot eth2p0.Root, committeeIndex eth2p0.CommitteeIndex) (*eth2spec.VersionedAttestation, error)) {
+func (v c01vapi) RegisterAwaitAggAttestation(fn func(ctx context.Context, slot uint64, attestationDataRoot eth2p0.Root, committeeIndex eth2p0.CommitteeIndex) (*eth2spec.VersionedAttestation, error)) {
+	v.n.awaitAgg = fn
 }
 func (c01vapi) RegisterAwaitAggSigDB(func(context.Context, core.Duty, core.PubKey, core.SubcommitteeIndex) (core.SignedData, error)) {
 }
@@ -645,6 +648,9 @@ func c01run(t *testing.T, sc c01script) (ex c01exec) {
 					t.Fatalf("harness: %v", err)
 				}
 			}
+			if w.kind == c01kAggregator {
+				n.aggCand = w.bAggregate(variant)
+			}
 			w.nodes = append(w.nodes, n)
 			h := w.net.NewHost(cl.peerIDs[i])
 			cons, err := cqbft.NewConsensus(nctx, w.eth2, h, new(p2p.Sender), cl.peers, cl.k1keys[i], core.NewDeadliner(nctx, "cons", deadlineFunc), gater,
@@ -688,7 +694,7 @@ func c01run(t *testing.T, sc c01script) (ex c01exec) {
 		}
 		// the duty is triggered on every node; its validator client starts waiting for the data to sign
 		start := func(n *c01node) {
-			if w.kind != "" && w.kind != c01kProposer {
+			if w.kind != "" && !w.viaConsensus() {
 				// duty types without consensus: nothing is scheduled or fetched, the validator client submits on its own; the
 				// validator client of the Byzantine node is the adversary (its partial signatures are injected below)
 				if n.idx != sc.Byz && n.idx != sc.Late-1 {
@@ -700,20 +706,20 @@ func c01run(t *testing.T, sc c01script) (ex c01exec) {
 				s := s
 				go func() { _ = s(n.ctx, duty, n.defSet()) }()
 			}
-			if w.kind == c01kProposer {
+			if w.kind != "" {
 				go n.bVC(duty)
 				return
 			}
 			go n.vc(duty)
 		}
-		if w.kind != "" && w.kind != c01kProposer && sc.Byz >= 0 && sc.Place == "first" {
+		if w.kind != "" && !w.viaConsensus() && sc.Byz >= 0 && sc.Place == "first" {
 			ex.trace = append(ex.trace, w.bInjectPlan(duty)...)
 		}
 		for _, n := range w.nodes {
 			start(n)
 		}
 		synctest.Wait()
-		if w.kind != "" && w.kind != c01kProposer && sc.Byz >= 0 && sc.Place != "first" {
+		if w.kind != "" && !w.viaConsensus() && sc.Byz >= 0 && sc.Place != "first" {
 			ex.trace = append(ex.trace, w.bInjectPlan(duty)...)
 		}
 		latePending := w.kind != "" && sc.Late >= 1
@@ -742,7 +748,7 @@ func c01run(t *testing.T, sc c01script) (ex c01exec) {
 					}
 				}
 			}
-			if sc.Byz >= 0 && !byzUsed && w.kind == c01kProposer {
+			if sc.Byz >= 0 && !byzUsed && w.kind != "" && w.viaConsensus() {
 				for _, b := range w.bByzMenu() {
 					menu = append(menu, act{b.kind, b.arg})
 				}
@@ -966,10 +972,15 @@ func c01check(ex c01exec) (sigs, descs []string) {
 	sigs, descs = c01checkEmits(ex.emits)
 	byzUnsigned, cause := false, "peer-chosen-unsigned-attestation-fields"
 	for _, l := range ex.trace {
-		byzUnsigned = byzUnsigned || strings.HasPrefix(l, "BYZ genuine-signature-other-unsigned-fields")
 		if strings.HasPrefix(l, "BYZ genuine-signature-other-unsigned-fields(sync-message") {
-			cause = "peer-chosen-unsigned-sync-message-fields"
+			// sync committee messages: only a peer-chosen VALIDATOR INDEX makes the beacon node attribute the message to another
+			// validator (modifications 1 and 2); a peer-chosen slot does not
+			if strings.Contains(l, fmt.Sprintf("mod %d)", c01bModOtherVal)) || strings.Contains(l, fmt.Sprintf("mod %d)", c01bModNoVal)) {
+				byzUnsigned, cause = true, "peer-chosen-unsigned-sync-message-fields"
+			}
+			continue
 		}
+		byzUnsigned = byzUnsigned || strings.HasPrefix(l, "BYZ genuine-signature-other-unsigned-fields")
 	}
 	if !byzUnsigned || len(sigs) == 0 {
 		return
@@ -1124,14 +1135,15 @@ func TestVerifC01(t *testing.T) {
 			{n: 4, inputs: "distinct", byz: -1, maxDev: 2, vals: 1, aggdb: "v1", wire: "retry"}, {n: 4, inputs: "equal", byz: 1, maxDev: 2, vals: 2, aggdb: "v1", wire: "retry"},
 			{n: 3, inputs: "distinct", byz: -1, maxDev: 2, vals: 1, att: "electra-noidx", aggdb: "v1", wire: "retry"}, {n: 4, inputs: "leader-differs", byz: 2, maxDev: 2, vals: 1, wire: "retry"}, {n: 4, inputs: "equal", byz: 0, maxDev: 2, vals: 1, aggdb: "v1"}}
 	}
-	// order: the complete camp x plan products of the duty types without consensus (one execution per scenario, cheap), the
-	// attester configurations, then the proposer configurations and the selected scenarios with one more deviation
-	products, deeper := c01bScripts(th)
-	var scripts []c01script
+	// order (it only matters when the time budget ends the run, i.e. in the thorough tier): the complete camp x plan products of
+	// the duty types without consensus, the proposer / aggregator configurations and the selected scenarios with one more
+	// deviation, the attester configurations, at the end the most expensive configuration of the duty-type dimension
+	products, deeper, last := c01bScripts(th)
+	scripts := deeper
 	for _, c := range cfgs {
 		scripts = append(scripts, c01script{N: c.n, Inputs: c.inputs, Byz: c.byz, MaxDev: c.maxDev, Vals: c.vals, Att: c.att, AggDB: c.aggdb, Wire: c.wire})
 	}
-	scripts = append(scripts, deeper...)
+	scripts = append(scripts, last...)
 	sampled := 0
 	sampledKind := map[string]bool{}
 	for _, base := range products {
